@@ -511,6 +511,7 @@ pub fn run(tier: Tier) -> i32 {
     rep.cov("rule", "extractor on every prefix of 13 real/synthetic first flights; real TLS handshakes (rustls client, production listener/acceptor) with the first flight cut at every byte position (plain hellos) or at structural positions (4 KiB / 17 KiB padded), structural 2-cuts (all 2-cuts in thorough), byte-at-a-time; 6 accept-path wiring scenarios");
     rep.sample(json!({"sample":"plain","cuts":[11, 43]}));
     rep.assume("ClientHellos come from rustls 0.21 (boring's post-quantum key shares are represented by the 4 KiB / 17 KiB padded variants); the QUIC half (value of the completed handshake) is not driven");
+    super::cq::c12_into(&mut rep, tier);
     rep.finish()
 }
 
